@@ -66,6 +66,7 @@ type c19Project struct {
 	Name    string
 	P       impl.Project
 	Invalid bool // rejected also without bans (malformed instance of the kind): the ban must still win
+	Carrier bool // hand-written text that merely mentions keywords; skipped silently when it is not valid
 }
 
 func c19Projects() []c19Project {
@@ -110,6 +111,17 @@ func c19Projects() []c19Project {
 			m2.Kids = []*dt.Node{bl2[len(bl2)-1]}
 			render(k+"/in-unpasted-macro", &dt.File{Name: "root.jst", Nodes: append(append([]*dt.Node{js()}, bl2[:len(bl2)-1]...), m2)})
 		}
+	}
+	// documents in which every keyword is spelled as a parameter value, path piece, annotation, property name, string and
+	// enum value — but is not a directive (three carriers that use disjoint sets of directive kinds)
+	words := append([]string{}, ref.Keywords...)
+	words = append(words, "200", "404")
+	for _, k := range words {
+		out = append(out,
+			c19Project{Name: "mentions-" + k + "/carrier-a", Carrier: true, P: impl.Single("JSIGHT 0.3\nINFO\n  Title " + k + "\n  Version " + k + "\nGET /" + k + " // " + k + "\n  OperationId " + k + "\n  200 any // " + k + "\n")},
+			c19Project{Name: "mentions-" + k + "/carrier-b", Carrier: true, P: impl.Single("JSIGHT 0.3\nSERVER @s // " + k + "\n  BaseUrl " + k + "\nTAG @t // " + k + "\nURL /" + k + "\n  Protocol json-rpc-2.0\n  Method " + k + " // " + k + "\n    Params\n    {\"" + k + "\": \"" + k + "\"} // " + k + "\n")},
+			c19Project{Name: "mentions-" + k + "/carrier-c", Carrier: true, P: impl.Single("JSIGHT 0.3\nTYPE @t // " + k + "\n{\"k\": \"" + k + "\"}\nENUM @e\n[\"" + k + "\"]\nPOST /p\n  Query \"" + k + "\"\n  {\"q\": \"" + k + "\"}\n  Request\n    Headers\n    {\"" + k + "\": \"" + k + "\"}\n    Body any\n  404 any\n")},
+		)
 	}
 	// everything at once
 	var all []*dt.Node
@@ -273,6 +285,8 @@ func workC19(w *run.W) {
 		baseObs := "ERR " + base.Err.Tuple()
 		if base.Err == nil {
 			baseObs = impl.ToJson(&base.J).String()
+		} else if pr.Carrier {
+			continue
 		} else if w.Shard == 0 && !pr.Invalid {
 			w.Violation("C19", "harness:project-invalid:"+pr.Name, "check project "+pr.Name+" is not valid without bans: "+base.Err.Msg+"\n"+showProject(pr.P), nil)
 		}
